@@ -32,7 +32,7 @@ MANIFEST_TEXT = ("Schema 1.x on the whole-library model: tracks() / containing_c
 
 
 def tie(ctx):
-    plan = [("members", 18, 4), ("mixed", 12, 1)] if ctx.tier == "quick" else [("members", 36, 8), ("mixed", 30, 3)]
+    plan = [("members", 18, 10), ("mixed", 14, 3)] if ctx.tier == "quick" else [("members", 36, 30), ("mixed", 30, 10)]
     r = _lib1.run_part(ctx, "C08", plan, ("members",), track_ops=0.35)
     r["rule"] = ("membership-profile histories of the crates package (create-and-remove padding, adds by raw id, removed "
                  "crates and tracks as arguments) woven with real track calls (create_track from generated snapshots incl. "
